@@ -284,6 +284,14 @@ def design_level(chk, pid, thorough):
         chk.tlc(r, 'LatticeMC C10order: reversing every neighbour list leaves the canonical result unchanged (design level)')
         if r.invariant_violated:
             raise common.MachineryError('design-level violation of listing-order invariance: ' + r.tail[-2500:])
+        # with non-emitting states the same statement is not a theorem of the algorithm (finding F-ne-order); TLC is
+        # asked for a counterexample on the specification (small scope: none; the larger thorough scope has one)
+        rn = run_tlc('LatticeMC', 'LatticeMC_C10n' + sx + '.cfg', workers=16, timeout=1500 if thorough else 600, seed=chk.seed + 1,
+                     allow_violation=True, allow_timeout=True)
+        chk.tlc(rn, 'LatticeMC C10orderNE: the same with non-emitting states (informational: F-ne-order at design level)')
+        chk.cov['design_level_listing_order_with_non_emitting_states'] = (
+            'counterexample found on the specification (F-ne-order)' if rn.invariant_violated
+            else 'no counterexample within the explored scope' + (' (time limit reached)' if rn.timed_out else ''))
         return []
     if pid != 'C19':
         return []
